@@ -98,7 +98,7 @@ CLAIMED = {
   "DESIGN.md §3 C07"),
  "C08": ("exploration",
   "TLA+ spec FmtLayout.tla (files = sequences of declaration kinds x layout record x comment slots; protocol parse -> format -> parse -> format) enumerated by TLC; every state rendered as text and run through parser, format.Source (and a sample through `cue fmt`), with a position-free syntax tree dump compared before and after",
-  "Model-driven exploration: FmtLayout.tla enumerates every sequence of <= 2 of 26 declaration kinds (fields, nested structs, field chains, lists, embeddings, let, attributes, for/if comprehensions, calls on one and several lines, optional/required fields, definitions, multi-line strings with interpolation, operator chains, pattern constraints, list comprehensions, aliases, ellipses, dynamic fields, unary operators, multi-line disjunctions) under a seeded sample of 6 (thorough 48) of 972 layouts (member separator, spaces after colons and around operators, redundant parentheses, blank lines, trailing commas, indentation) with comments in up to two of eight slots (doc, end of line, after an opening brace, before a closing bracket, between members, after a colon, after a list element, after an operator). Each file must parse; format.Source must succeed; the output must parse to the same position-free tree (node kinds, literal text with multi-line string indentation normalised, operators, attributes, every comment group with its doc/line flags and attachment position); formatting again must be byte-identical; format.Simplify output must parse and be idempotent; a sample goes through the cue binary (`cue fmt --files`, then `cue fmt --check`). One genuine defect found this way was repaired (fix: commit 5c6c9ae), one is recorded as known finding; a failing state is shrunk to (kind, comment slots) to name its class.",
+  "Model-driven exploration: FmtLayout.tla enumerates every sequence of <= 2 of 28 declaration kinds (fields, nested structs, field chains, lists, embeddings, let, attributes, for/if comprehensions, calls on one and several lines, optional/required fields, definitions, multi-line strings and bytes with and without interpolation, operator chains, pattern constraints, list comprehensions, aliases, ellipses, dynamic fields, unary operators, multi-line disjunctions) under a seeded sample of 6 (thorough 48) of 972 layouts (member separator, spaces after colons and around operators, redundant parentheses, blank lines, trailing commas, indentation) with comments in up to two of eight slots (doc, end of line, after an opening brace, before a closing bracket, between members, after a colon, after a list element, after an operator). Each file must parse; format.Source must succeed; the output must parse to the same position-free tree (node kinds, literal text with multi-line string indentation normalised, operators, attributes, every comment group with its doc/line flags and attachment position); formatting again must be byte-identical; format.Simplify output must parse and be idempotent; a sample goes through the cue binary (`cue fmt --files`, then `cue fmt --check`). One genuine defect found this way was repaired (fix: commit 5c6c9ae), one is recorded as known finding; a failing state is shrunk to (kind, comment slots) to name its class.",
   "trusted: TLC (enumeration), the renderer from states to text (files that do not parse are counted and fail the run above 20%), the tree dump; canary: a file with a moved comment must dump differently. The repository's own .cue corpus and token-level mutations of it are not part of the model-generated space (DESIGN.md §7); -s is only checked for parseability and idempotence.",
   "DESIGN.md §3 C08"),
  "C02": ("exploration",
